@@ -143,3 +143,28 @@ def relation(c, x, y):
     if neg:
         rel = {'<', '=', '>'} - rel  # NaN-free (finite inputs are a precondition)
     return rel
+
+
+def cases_deep(t, limit=512):
+    """Like cases(), but also lifts phis nested inside operators (the leaves are phi-free)."""
+    out = []
+
+    def first_phi(x):
+        for s in subterms(x):
+            if s[0] == 'phi':
+                return s
+        return None
+
+    def rec(x, conds, depth):
+        if len(out) > limit or depth > 40:
+            raise OverflowError('too many cases')
+        p = first_phi(x)
+        if p is None:
+            out.append((conds, x))
+            return
+        a = map_term(x, lambda n: p[2] if n == p else n)
+        b = map_term(x, lambda n: p[3] if n == p else n)
+        rec(a, conds + (p[1],), depth + 1)
+        rec(b, conds + (neg_cond(p[1]),), depth + 1)
+    rec(t, (), 0)
+    return out
